@@ -840,6 +840,49 @@ def rule_r7(prog, res) -> None:
         raise AnalysisError(f"C09.R7: only {n} same-name parameter hand-overs found, minimum 20")
 
 
+def rule_r9(prog, res) -> None:
+    """a catalog is only declared complete when every patch holds data: in `CatalogWriter.finalize` a test of each
+    writer's record count against zero — true for an empty patch — either raises or collects the patch in a container
+    that is walked / tested with a raise afterwards, and both lie on every path to the publication of the id list.
+    (An empty patch has no centre; kept in the list it shifts or poisons everything computed per patch.)"""
+    from ..inline import inlined
+
+    cw = next((c for c in prog.classes if "finalize" in c.methods and "process_patches" in c.methods), None)
+    if cw is None:
+        raise AnalysisError("C09.R9: catalog writer class (finalize, process_patches) not found")
+    fin = inlined(prog, cw.methods["finalize"], desugar=True)
+    res.touch(cw.methods["finalize"])
+    cfg = cfg_of(fin.node)
+    publish = [n for n in cfg.nodes if any(isinstance(c.func, ast.Attribute) and c.func.attr in ("replace", "rename") for c in n.calls())]
+    if not publish:
+        raise AnalysisError("C09.R9: publication of the patch id list (rename / replace) not found in finalize")
+    tests = [x for x in ast.walk(fin.node) if isinstance(x, ast.If) and any(isinstance(y, ast.Attribute) and y.attr in ("num_processed", "num_records") for y in ast.walk(x.test))]
+    good = None
+    why = "finalize does not test the record count of the patch writers"
+    for t in tests:
+        cnt = next(y for y in ast.walk(t.test) if isinstance(y, ast.Attribute) and y.attr in ("num_processed", "num_records"))
+        try:
+            fires_for_empty = bool(ceval(t.test, {unparse(cnt): 0})) and not bool(ceval(t.test, {unparse(cnt): 5}))
+        except Unknown:
+            continue
+        if not fires_for_empty:
+            why = f"the test `{unparse(t.test)}` does not single out the empty patch (it is {'true' if bool(ceval(t.test, {unparse(cnt): 5})) else 'false'} for a patch with records)"
+            continue
+        raises_here = any(isinstance(y, ast.Raise) for s_ in t.body for y in ast.walk(s_))
+        coll = [c.func.value.id for s_ in t.body for c in ast.walk(s_) if isinstance(c, ast.Call) and isinstance(c.func, ast.Attribute) and c.func.attr in ("add", "append") and isinstance(c.func.value, ast.Name)]
+        later = [x for x in ast.walk(fin.node) if isinstance(x, (ast.For, ast.If)) and any(isinstance(y, ast.Raise) for y in ast.walk(x)) and any(isinstance(y, ast.Name) and y.id in coll for y in ast.walk(x.iter if isinstance(x, ast.For) else x.test))]
+        if not raises_here and not later:
+            why = f"an empty patch found by `{unparse(t.test)}` neither raises nor is collected for a later raise"
+            continue
+        guard_nodes = [n for n in cfg.nodes if n.ast is t or any(n.ast is l for l in later)]
+        if all(any(cfg.dominates(g, pnode) for g in guard_nodes) for pnode in publish):
+            good = t
+    if good is not None:
+        res.ok("C09.R9", res.site(cw.methods["finalize"]), f"`{unparse(good.test)}` leads to a raise on every path to the publication of the id list")
+    else:
+        res.violation("C09.R9", cw.methods["finalize"], fin.node, f"{cw.name}.finalize can publish the patch id list with an empty patch in it: {why}", key_extra="empty-patch-published")
+
+
 def rule_r8(prog, res) -> None:
     """patch ids that the library generates itself fit the stored integer type: wherever the way of patching is decided
     (`PatchMode.determine`), the arm for given centres range-checks the number of centres and the arm for a number of
@@ -880,4 +923,5 @@ RULES = [
     ("C09.R6", rule_r6, QUICK),
     ("C09.R7", rule_r7, QUICK),
     ("C09.R8", rule_r8, QUICK),
+    ("C09.R9", rule_r9, QUICK),
 ]
